@@ -456,21 +456,11 @@ def sanitised(F, b, tb, term, depth=0):
 def _chars_of(t):
     if isinstance(t, tuple) and t:
         if t[0] == "array":
-            vals = set()
-            for e in t[1:] if not isinstance(t[1], tuple) or (t[1] and not isinstance(t[1][0], tuple)) else t[1]:
-                if isinstance(e, tuple) and e and e[0] == "int":
-                    vals.add(e[1])
-            if not vals and len(t) > 1 and isinstance(t[1], tuple):
-                for e in t[1]:
-                    if isinstance(e, tuple) and e and e[0] == "int":
-                        vals.add(e[1])
-            return vals
+            return {e[1] for e in t[1] if isinstance(e, tuple) and e and e[0] == "int"}
         if t[0] == "int":
             return {t[1]}
         if t[0] == "str":
             return {ord(c) for c in t[1]}
-        if t[0] == "closure":
-            return None
     return None
 
 
